@@ -5,6 +5,8 @@ CONSTANTS
   Muts = {"none"}
   MaxWire = 1000
   Shared = FALSE
+  KeyCache = FALSE
+  MaxGen = 1
 INVARIANT KeyOwnership
 INVARIANT VerifiesOnlyOwn
 POSTCONDITION AllTracesAccepted
